@@ -18,6 +18,7 @@
   renumbering is NOT proved here; the C16 check tests it (edited system vs systems built from scratch).
 -/
 import SysLoss.Props.C15
+import SysLoss.Props.C16Sweep
 
 set_option linter.unusedSectionVars false
 set_option linter.unusedVariables false
